@@ -30,7 +30,7 @@ def confirm(wt, out, name, prop, tests):
             shutil.copy(os.path.join(out, f), dst)
         meta = json.load(open(os.path.join(out, "meta.json")))
         meta["property"] = prop
-        meta["confirmed_by_me"] = "in scratch worktree %s: demo rc %d -> %d; tests with patch: %s" % (wt, r0.returncode, r1.returncode, t.stdout.strip())
+        meta["confirmed_by_me"] = "in scratch worktree %s: demo rc %d -> %d; tests with patch (%s): %s" % (wt, r0.returncode, r1.returncode, " ".join(tests), t.stdout.strip())
         json.dump(meta, open(os.path.join(dst, "meta.json"), "w"), indent=1)
     return ok
 
